@@ -14,6 +14,15 @@ HARNESS = ("harness/cmd/vharness (Go, built against /repo's working tree with -t
 NOT_APPLICABLE = {}
 
 PROPS = {
+    "C19": {
+        "design_ref": "DESIGN.md section 6 (C19)",
+        "projection": "all",
+        "mismatch_is_input": True,
+        "level_text": "Coq theorems over every history (= every schedule, each id draw being one atomic step) of any mix of constructors and option lists over any number of contexts: the request ids of a context are in issue order the successive draws from its counter, from a fresh context exactly 1..n (n < 2^32), pairwise distinct; request constructors stamp the fresh id after the caller's options (not overridable); response/push constructors draw nothing and keep the caller's id. Tie: constructor/option histories compared with the model; G x M goroutines must produce exactly {1..GM} (direct oracle).",
+        "level_note": "Trusted: kernel, extraction, harness. Assumes atomic.AddUint32 is atomic (sync/atomic contract): a concurrent execution is a linear history of draws.",
+        "assumptions": ["atomic.AddUint32 is one indivisible read-modify-write", "uint32 wrap-around = mod 2^32"],
+        "modelled": "go/context.go GetRequestIDGen, NewContext; go/packet.go NewPacket, NewRequest, MustNewRequest, NewResponse, MustNewResponse, NewPush, MustNewPush, WithVerify, WithRequestId, WithStatusCode",
+    },
     "C03": {
         "design_ref": "DESIGN.md section 6 (C03)",
         "projection": "packet sequence and left-over byte counts after every chunk",
